@@ -1,258 +1,308 @@
 import D2P.Spec.Runs
-import D2P.Proofs.UnstyledWalk
+import D2P.Proofs.StyleOK
+import D2P.Proofs.Total
 import D2P.Proofs.Paragraph
 /-!
-# The walk refines the run-string machine (html off)
+# The walk refines the run machine (both html modes)
 -/
 namespace D2P
 
-/-! ## run lists as string states -/
+/-! ## run lists as machine states -/
 
-def texts (rs : List Run) : List Str := rs.flatMap (fun r => ne r.text)
+def kept (rs : List Run) : List Run := rs.flatMap keep
 
-def lastText (rs : List Run) : Str := (rs.getLast?.map (·.text)).getD []
+def lastRun (rs : List Run) : Run := rs.getLast?.getD { style := [], text := [] }
 
 /-- what a paragraph's run list means to the machine -/
-def absP (p : Par) : RState := (texts p.runs.dropLast, lastText p.runs)
+def absP (p : Par) : RState := (kept p.runs.dropLast, lastRun p.runs)
 
-theorem texts_append (a b : List Run) : texts (a ++ b) = texts a ++ texts b := by simp [texts]
+theorem kept_append (a b : List Run) : kept (a ++ b) = kept a ++ kept b := by simp [kept]
 
-theorem texts_split (rs : List Run) : texts rs = texts rs.dropLast ++ ne (lastText rs) := by
+theorem kept_split (rs : List Run) : kept rs = kept rs.dropLast ++ keep (lastRun rs) := by
   cases h : rs.getLast? with
   | none =>
     have : rs = [] := by simpa using h
-    subst this; simp [texts, lastText, ne]
+    subst this; simp [kept, lastRun, keep]
   | some l =>
     have hne : rs ≠ [] := by intro e; subst e; simp at h
     have hl : rs.getLast hne = l := by rw [List.getLast?_eq_some_getLast hne] at h; exact Option.some.inj h
     have hs := List.dropLast_concat_getLast hne
     rw [hl] at hs
     conv => lhs; rw [← hs]
-    simp [texts_append, texts, lastText, h]
+    simp [kept_append, kept, lastRun, h]
 
-theorem absP_strings (p : Par) : (absP p).strings = texts p.runs := by
-  unfold absP RState.strings; exact (texts_split p.runs).symm
+theorem absP_runs (p : Par) : (absP p).runs = kept p.runs := by
+  unfold absP RState.runs; exact (kept_split p.runs).symm
 
-theorem absP_count (p : Par) : (absP p).count = (texts p.runs).length := by
-  rw [← absP_strings]; simp [RState.count, RState.strings]
+theorem absP_count (p : Par) : (absP p).count = (kept p.runs).length := by
+  rw [← absP_runs]; simp [RState.count, RState.runs]
 
 theorem absP_append (p : Par) (r : Run) :
-    absP { p with runs := p.runs ++ [r] } = ((absP p).1 ++ ne (absP p).2, r.text) := by
-  simp only [absP, List.dropLast_concat, lastText, List.getLast?_append, List.getLast?_singleton, Option.some_or,
-    Option.map_some, Option.getD_some]
-  rw [texts_split p.runs]; rfl
+    absP { p with runs := p.runs ++ [r] } = ((absP p).1 ++ keep (absP p).2, r) := by
+  simp only [absP, List.dropLast_concat, lastRun, List.getLast?_append, List.getLast?_singleton, Option.some_or,
+    Option.getD_some]
+  rw [kept_split p.runs]; rfl
 
 theorem absP_append2 (p : Par) (a b : Run) :
-    absP { p with runs := p.runs ++ [a, b] } = ((absP p).1 ++ ne (absP p).2 ++ ne a.text, b.text) := by
+    absP { p with runs := p.runs ++ [a, b] } = ((absP p).1 ++ keep (absP p).2 ++ keep a, b) := by
   have : p.runs ++ [a, b] = (p.runs ++ [a]) ++ [b] := by simp
-  simp only [absP, this, List.dropLast_concat, lastText, List.getLast?_append, List.getLast?_singleton, Option.some_or,
-    Option.map_some, Option.getD_some]
-  rw [texts_append, texts_split p.runs]
-  simp [texts, lastText]
+  simp only [absP, this, List.dropLast_concat, lastRun, List.getLast?_append, List.getLast?_singleton, Option.some_or,
+    Option.getD_some]
+  rw [kept_append, kept_split p.runs]
+  simp [kept, lastRun]
 
 theorem absP_appendToLast (p : Par) (t : Str) (hne : p.runs ≠ []) :
-    absP (appendToLastRun p t) = ((absP p).1, (absP p).2 ++ t) := by
+    absP (appendToLastRun p t) = ((absP p).1, { (absP p).2 with text := (absP p).2.text ++ t }) := by
   unfold appendToLastRun
   cases h : p.runs.getLast? with
   | none => exact absurd (by simpa using h) hne
   | some l =>
-    simp only [absP, List.dropLast_concat, lastText, List.getLast?_append, List.getLast?_singleton, Option.some_or,
-      Option.map_some, Option.getD_some, h]
+    simp only [absP, List.dropLast_concat, lastRun, List.getLast?_append, List.getLast?_singleton, Option.some_or,
+      Option.getD_some, h]
 
-/-! ## rendering with html off -/
+theorem lastRunStyle_abs (p : Par) : lastRunStyle p = (absP p).2.style := by
+  unfold lastRunStyle absP lastRun
+  cases p.runs.getLast? <;> rfl
 
-theorem runStrs_plain : ∀ (rs : List Run), (∀ r ∈ rs, r.style = []) → runStrs rs = .ok (texts rs)
-  | [], _ => rfl
+/-! ## rendering: a run gives a string iff it has text -/
+
+theorem runStr_len (r : Run) (h : okStyles r.style) : ∃ s, r.str = .ok s ∧ s.isEmpty = r.text.isEmpty := by
+  unfold Run.str
+  split
+  · rename_i he; exact ⟨[], rfl, by rw [he]; rfl⟩
+  · rename_i he
+    obtain ⟨c, hc⟩ := htmlClose_ok _ h
+    refine ⟨_, by simp only [hc, ok_bind]; rfl, ?_⟩
+    have hne : r.text ≠ [] := by intro e; rw [e] at he; simp at he
+    cases ht : r.text with
+    | nil => exact absurd ht hne
+    | cons ch rest =>
+      have : htmlOpen r.style ++ (ch :: rest) ++ c ≠ [] := by simp
+      cases hh : htmlOpen r.style ++ (ch :: rest) ++ c with
+      | nil => exact absurd hh this
+      | cons _ _ => rfl
+
+theorem runStrs_len : ∀ (rs : List Run), (∀ r ∈ rs, okStyles r.style) → ∃ ss, runStrs rs = .ok ss ∧ ss.length = (kept rs).length
+  | [], _ => ⟨[], rfl, rfl⟩
   | r :: rs, h => by
-    have hr : r.style = [] := h r (by simp)
-    have ih := runStrs_plain rs (fun x hx => h x (by simp [hx]))
-    have hs : r.str = .ok r.text := by
-      unfold Run.str
-      split
-      · rename_i he; rw [List.isEmpty_iff.1 he]; rfl
-      · simp [hr, htmlClose, closeTags, htmlOpen, sjoin, pure, Except.pure, bind, Except.bind]
-    simp only [runStrs, hs, ok_bind, ih, texts, List.flatMap_cons, ne]
-    split <;> rfl
+    obtain ⟨s, hs, he⟩ := runStr_len r (h r (by simp))
+    obtain ⟨ss, hss, hl⟩ := runStrs_len rs (fun q hq => h q (List.mem_cons_of_mem _ hq))
+    refine ⟨if s.isEmpty then ss else s :: ss, by simp only [runStrs, hs, ok_bind, hss]; rfl, ?_⟩
+    simp only [kept, List.flatMap_cons, keep, List.length_append] at hl ⊢
+    rw [he]
+    split <;> simp [hl, kept] <;> omega
 
-theorem runStrings_plain (p : Par) (h : p.unstyled) : p.runStrings = .ok (texts p.runs) := by
+theorem runStrings_len (p : Par) (hp : p.sty okStyles) :
+    ∃ l, p.runStrings = .ok l ∧ l.length = (if p.htmlStyle.isEmpty then 0 else 2) + (kept p.runs).length := by
+  obtain ⟨ss, hss, hl⟩ := runStrs_len p.runs hp.2
   unfold Par.runStrings
-  simp only [runStrs_plain p.runs h.2, ok_bind, h.1, List.isEmpty_nil, if_true]
-  rfl
+  simp only [hss, ok_bind]
+  split
+  · exact ⟨ss, rfl, by simp [hl]⟩
+  · obtain ⟨c, hc⟩ := htmlClose_ok _ hp.1
+    exact ⟨_, by simp only [hc, ok_bind]; rfl, by simp [hl]; omega⟩
 
 /-! ## inside one open paragraph -/
 
-/-- the collector is inside exactly one open paragraph `p`; the finished paragraphs hold `k` strings -/
-structure In (s : DC) (k : Nat) (p : Par) : Prop where
+def tagOff (tag : Bool) : Nat := if tag then 1 else 0
+
+/-- the collector is inside exactly one open paragraph `p`; the finished paragraphs hold `k0` strings;
+`tag`: the paragraph has an opening tag of its own (a heading, with html on) -/
+structure In (s : DC) (k0 : Nat) (tag : Bool) (p : Par) : Prop where
   one : s.openPars = [p]
-  leaf : countStrings (leafParsL s.root) = .ok k
-  unst : Unst s
+  leaf : countStrings (leafParsL s.root) = .ok k0
+  sty : Sty okStyles s
   noq : s.queued = []
+  tagged : p.htmlStyle.isEmpty = !tag
 
 def absS (s : DC) (p : Par) : RS := ⟨absP p, s.ranges⟩
 
-theorem In.hasTop {s : DC} {k : Nat} {p : Par} (h : In s k p) : HasTop s := ⟨p, by rw [h.one]; rfl⟩
+theorem In.hasTop {s : DC} {k0 : Nat} {tag : Bool} {p : Par} (h : In s k0 tag p) : HasTop s := ⟨p, by rw [h.one]; rfl⟩
 
-theorem In.countRuns {s : DC} {k : Nat} {p : Par} (h : In s k p) : s.countRuns = .ok (k + (absP p).count) := by
+theorem In.countRuns {s : DC} {k0 : Nat} {tag : Bool} {p : Par} (h : In s k0 tag p) :
+    s.countRuns = .ok (k0 + tagOff tag + (absP p).count) := by
   unfold DC.countRuns
-  have hp : p.unstyled := h.unst.open_ p (by rw [h.one]; simp)
-  simp only [h.leaf, ok_bind, h.one, openParCount, runStrings_plain p hp, hp.1, List.isEmpty_nil, if_true, absP_count]
-  rfl
+  have hp : p.sty okStyles := h.sty.open_ p (by rw [h.one]; simp)
+  obtain ⟨ss, hss, hl⟩ := runStrs_len p.runs hp.2
+  have hrs : p.runStrings = (if p.htmlStyle.isEmpty then pure ss else
+      (htmlClose p.htmlStyle) >>= fun c => pure ([htmlOpen p.htmlStyle] ++ ss ++ [c])) := by
+    unfold Par.runStrings; simp only [hss, ok_bind]
+  simp only [h.leaf, ok_bind, h.one, openParCount, hrs]
+  cases tag with
+  | false =>
+    have he : p.htmlStyle.isEmpty = true := by simpa using h.tagged
+    simp only [he, if_true, pure, Except.pure, ok_bind, tagOff, Bool.false_eq_true, if_false, absP_count, hl]
+    rfl
+  | true =>
+    have he : p.htmlStyle.isEmpty = false := by simpa using h.tagged
+    obtain ⟨c, hc⟩ := htmlClose_ok _ hp.1
+    simp only [he, Bool.false_eq_true, if_false, hc, pure, Except.pure, ok_bind, tagOff, if_true, absP_count,
+      List.length_append, List.length_cons, List.length_nil, hl]
+    show Except.ok _ = Except.ok _
+    congr 1; omega
 
 theorem modTop_one (s : DC) (p : Par) (f : Par → Par) (h : s.openPars = [p]) :
     (s.modTop f).openPars = [f p] ∧ (s.modTop f).root = s.root ∧ (s.modTop f).ranges = s.ranges := by
   unfold DC.modTop; simp [h]
 
-theorem in_modTop {s : DC} {k : Nat} {p : Par} (h : In s k p) (f : Par → Par) (hu : Unst (s.modTop f)) : In (s.modTop f) k (f p) :=
-  ⟨(modTop_one s p f h.one).1, by rw [(modTop_one s p f h.one).2.1]; exact h.leaf, hu, by rw [modTop_queued]; exact h.noq⟩
+theorem in_modTop {s : DC} {k0 : Nat} {tag : Bool} {p : Par} (h : In s k0 tag p) (f : Par → Par) (hu : Sty okStyles (s.modTop f))
+    (hfh : (f p).htmlStyle = p.htmlStyle) : In (s.modTop f) k0 tag (f p) :=
+  ⟨(modTop_one s p f h.one).1, by rw [(modTop_one s p f h.one).2.1]; exact h.leaf, hu, by rw [modTop_queued]; exact h.noq,
+    by rw [hfh]; exact h.tagged⟩
 
-/-- one step of the machine on the strings, the ranges untouched -/
-def StepR (s s' : DC) (k : Nat) (p : Par) (g : RState → RState) : Prop :=
-  ∃ p', In s' k p' ∧ s'.root = s.root ∧ s'.ranges = s.ranges ∧ absP p' = g (absP p)
+/-- one step of the machine on the runs, the ranges untouched -/
+def StepR (s s' : DC) (k0 : Nat) (tag : Bool) (p : Par) (g : RState → RState) : Prop :=
+  ∃ p', In s' k0 tag p' ∧ s'.root = s.root ∧ s'.ranges = s.ranges ∧ absP p' = g (absP p)
 
-theorem commenceRun_runs (s s' : DC) (k : Nat) (p : Par) (e : Option Xml) (h : In s k p)
-    (he : s.commenceRun false e = .ok s') : StepR s s' k p RState.newRun := by
-  have hu := commenceRun_unst s s' e h.unst he
+theorem commenceRun_runs (html : Bool) (s s' : DC) (k0 : Nat) (tag : Bool) (p : Par) (e : Option Xml) (h : In s k0 tag p)
+    (he : s.commenceRun html e = .ok s') :
+    ∃ st, (match e with | some x => runFormatting html x | none => pure []) = .ok st ∧ StepR s s' k0 tag p (fun r => r.newRun st) := by
+  have hu := commenceRun_sty (okSpec html) s s' e h.sty he
   unfold DC.commenceRun at he
-  obtain ⟨st, _, he⟩ := bind_ok he
-  rw [ensurePar_hasTop false s h.hasTop] at he
+  obtain ⟨st, hst, he⟩ := bind_ok he
+  rw [ensurePar_hasTop html s h.hasTop] at he
   obtain ⟨s1, h1, he⟩ := bind_ok he
   cases h1
   have := pure_ok he; subst this
   obtain ⟨_, m2, m3⟩ := modTop_one s p (fun p => { p with runs := p.runs ++ [{ style := st }] }) h.one
-  exact ⟨_, in_modTop h _ hu, m2, m3, by rw [absP_append]; rfl⟩
+  exact ⟨st, hst, _, in_modTop h _ hu rfl, m2, m3, by rw [absP_append]; rfl⟩
 
-theorem ensureRun_runs (s s' : DC) (k : Nat) (p : Par) (h : In s k p) (he : s.ensureRun false = .ok s') :
-    ∃ p', In s' k p' ∧ s'.root = s.root ∧ s'.ranges = s.ranges ∧ absP p' = absP p ∧ p'.runs ≠ [] := by
-  have hu := ensureRun_unst s s' h.unst he
+theorem ensureRun_runs (html : Bool) (s s' : DC) (k0 : Nat) (tag : Bool) (p : Par) (h : In s k0 tag p) (he : s.ensureRun html = .ok s') :
+    ∃ p', In s' k0 tag p' ∧ s'.root = s.root ∧ s'.ranges = s.ranges ∧ absP p' = absP p ∧ p'.runs ≠ [] := by
+  have hu := ensureRun_sty (okSpec html) s s' h.sty he
   unfold DC.ensureRun at he
-  rw [ensurePar_hasTop false s h.hasTop] at he
+  rw [ensurePar_hasTop html s h.hasTop] at he
   obtain ⟨s1, h1, he⟩ := bind_ok he
   cases h1
   have := pure_ok he; subst this
   obtain ⟨_, m2, m3⟩ := modTop_one s p (fun p => if p.runs.isEmpty then { p with runs := [{}] } else p) h.one
-  refine ⟨_, in_modTop h _ hu, m2, m3, ?_, ?_⟩
+  refine ⟨_, in_modTop h _ hu (by split <;> rfl), m2, m3, ?_, ?_⟩
   · split
     · rename_i he'
       have : p.runs = [] := List.isEmpty_iff.1 he'
-      simp [absP, this, texts, lastText]
+      simp [absP, this, kept, lastRun]
     · rfl
   · split
     · simp
     · rename_i he'; intro e; rw [e] at he'; simp at he'
 
-theorem addCode_runs (s s' : DC) (k : Nat) (p : Par) (t : Str) (h : In s k p)
-    (he : s.addCode false t = .ok s') : StepR s s' k p (fun r => r.txt t) := by
-  have hu := addCode_unst s s' t h.unst he
+theorem addCode_runs (html : Bool) (s s' : DC) (k0 : Nat) (tag : Bool) (p : Par) (t : Str) (h : In s k0 tag p)
+    (he : s.addCode html t = .ok s') : StepR s s' k0 tag p (fun r => r.txt t) := by
+  have hu := addCode_sty (okSpec html) s s' t h.sty he
   unfold DC.addCode at he
   obtain ⟨s1, h1, he⟩ := bind_ok he
-  obtain ⟨p1, i1, r1, g1, a1, n1⟩ := ensureRun_runs s s1 k p h h1
+  obtain ⟨p1, i1, r1, g1, a1, n1⟩ := ensureRun_runs html s s1 k0 tag p h h1
   have := pure_ok he; subst this
   obtain ⟨_, m2, m3⟩ := modTop_one s1 p1 (fun p => appendToLastRun p t) i1.one
-  exact ⟨_, in_modTop i1 _ hu, m2.trans r1, m3.trans g1, by rw [absP_appendToLast p1 t n1, a1]; rfl⟩
+  have hfh : (appendToLastRun p1 t).htmlStyle = p1.htmlStyle := by unfold appendToLastRun; split <;> rfl
+  exact ⟨_, in_modTop i1 _ hu hfh, m2.trans r1, m3.trans g1, by rw [absP_appendToLast p1 t n1, a1]; rfl⟩
 
-theorem insertNewRun_runs (s s' : DC) (k : Nat) (p : Par) (t : Str) (h : In s k p)
-    (he : s.insertNewRun false t = .ok s') : StepR s s' k p (fun r => r.ins t) := by
-  have hu := insertNewRun_unst s s' t h.unst he
+theorem insertNewRun_runs (html : Bool) (s s' : DC) (k0 : Nat) (tag : Bool) (p : Par) (t : Str) (h : In s k0 tag p)
+    (he : s.insertNewRun html t = .ok s') : StepR s s' k0 tag p (fun r => r.ins t) := by
+  have hu := insertNewRun_sty (okSpec html) s s' t h.sty he
   unfold DC.insertNewRun at he
   obtain ⟨s1, h1, he⟩ := bind_ok he
-  obtain ⟨p1, i1, r1, g1, a1, _⟩ := ensureRun_runs s s1 k p h h1
+  obtain ⟨p1, i1, r1, g1, a1, _⟩ := ensureRun_runs html s s1 k0 tag p h h1
   have := pure_ok he; subst this
   obtain ⟨_, m2, m3⟩ := modTop_one s1 p1 (fun p => { p with runs := p.runs ++ [{ style := [], text := t }, { style := lastRunStyle p }] }) i1.one
-  exact ⟨_, in_modTop i1 _ hu, m2.trans r1, m3.trans g1, by rw [absP_append2, a1]; rfl⟩
+  exact ⟨_, in_modTop i1 _ hu rfl, m2.trans r1, m3.trans g1, by rw [absP_append2, lastRunStyle_abs, a1]; rfl⟩
 
-theorem insertOpt_runs (s s' : DC) (k : Nat) (p : Par) (t : Option Str) (h : In s k p)
-    (he : insertOpt false s t = .ok s') : StepR s s' k p (fun r => r.insOpt t) := by
+theorem insertOpt_runs (html : Bool) (s s' : DC) (k0 : Nat) (tag : Bool) (p : Par) (t : Option Str) (h : In s k0 tag p)
+    (he : insertOpt html s t = .ok s') : StepR s s' k0 tag p (fun r => r.insOpt t) := by
   unfold insertOpt at he
   cases t with
   | none => have := pure_ok he; subst this; exact ⟨p, h, rfl, rfl, rfl⟩
-  | some t => exact insertNewRun_runs s s' k p t h he
+  | some t => exact insertNewRun_runs html s s' k0 tag p t h he
 
 /-! ## markers -/
 
-theorem startRange_runs (s s' : DC) (k : Nat) (p : Par) (id : Str) (h : In s k p) (he : s.startRange id = .ok s') :
-    In s' k p ∧ s'.root = s.root ∧ absS s' p = (absS s p).start k id := by
-  have hu := startRange_unst s s' id h.unst he
+theorem startRange_runs (s s' : DC) (k0 : Nat) (tag : Bool) (p : Par) (id : Str) (h : In s k0 tag p) (he : s.startRange id = .ok s') :
+    In s' k0 tag p ∧ s'.root = s.root ∧ absS s' p = (absS s p).start (k0 + tagOff tag) id := by
+  have hu := startRange_sty s s' id h.sty he
   unfold DC.startRange at he
   rw [h.countRuns] at he
   have := pure_ok he; subst this
-  exact ⟨⟨h.one, h.leaf, hu, h.noq⟩, rfl, rfl⟩
+  exact ⟨⟨h.one, h.leaf, hu, h.noq, h.tagged⟩, rfl, rfl⟩
 
-theorem endRange_runs (s s' : DC) (k : Nat) (p : Par) (id : Str) (h : In s k p) (he : s.endRange id = .ok s') :
-    In s' k p ∧ s'.root = s.root ∧ absS s' p = (absS s p).stop k id := by
-  have hu := endRange_unst s s' id h.unst he
+theorem endRange_runs (s s' : DC) (k0 : Nat) (tag : Bool) (p : Par) (id : Str) (h : In s k0 tag p) (he : s.endRange id = .ok s') :
+    In s' k0 tag p ∧ s'.root = s.root ∧ absS s' p = (absS s p).stop (k0 + tagOff tag) id := by
+  have hu := endRange_sty s s' id h.sty he
   unfold DC.endRange at he
   rw [h.countRuns] at he
   have := pure_ok he; subst this
-  exact ⟨⟨h.one, h.leaf, hu, h.noq⟩, rfl, rfl⟩
+  exact ⟨⟨h.one, h.leaf, hu, h.noq, h.tagged⟩, rfl, rfl⟩
 
-theorem foldIds_start (k : Nat) (p : Par) : ∀ (ms : List Xml) (s s' : DC), In s k p → foldIds DC.startRange s ms = .ok s' →
-    In s' k p ∧ s'.root = s.root ∧ foldMarkers (fun st id => st.start k id) (absS s p) ms = .ok (absS s' p)
+theorem foldIds_start (k0 : Nat) (tag : Bool) (p : Par) : ∀ (ms : List Xml) (s s' : DC), In s k0 tag p → foldIds DC.startRange s ms = .ok s' →
+    In s' k0 tag p ∧ s'.root = s.root ∧ foldMarkers (fun st id => st.start (k0 + tagOff tag) id) (absS s p) ms = .ok (absS s' p)
   | [], s, s', h, he => by simp only [foldIds] at he; have := pure_ok he; subst this; exact ⟨h, rfl, rfl⟩
   | m :: ms, s, s', h, he => by
     simp only [foldIds] at he
     obtain ⟨id, hid, he⟩ := bind_ok he
     obtain ⟨s1, h1, he⟩ := bind_ok he
-    obtain ⟨i1, r1, a1⟩ := startRange_runs s s1 k p id h h1
-    obtain ⟨i2, r2, a2⟩ := foldIds_start k p ms s1 s' i1 he
+    obtain ⟨i1, r1, a1⟩ := startRange_runs s s1 k0 tag p id h h1
+    obtain ⟨i2, r2, a2⟩ := foldIds_start k0 tag p ms s1 s' i1 he
     exact ⟨i2, r2.trans r1, by simp only [foldMarkers, hid, ok_bind, ← a1]; exact a2⟩
 
-theorem foldIds_stop (k : Nat) (p : Par) : ∀ (ms : List Xml) (s s' : DC), In s k p → foldIds DC.endRange s ms = .ok s' →
-    In s' k p ∧ s'.root = s.root ∧ foldMarkers (fun st id => st.stop k id) (absS s p) ms = .ok (absS s' p)
+theorem foldIds_stop (k0 : Nat) (tag : Bool) (p : Par) : ∀ (ms : List Xml) (s s' : DC), In s k0 tag p → foldIds DC.endRange s ms = .ok s' →
+    In s' k0 tag p ∧ s'.root = s.root ∧ foldMarkers (fun st id => st.stop (k0 + tagOff tag) id) (absS s p) ms = .ok (absS s' p)
   | [], s, s', h, he => by simp only [foldIds] at he; have := pure_ok he; subst this; exact ⟨h, rfl, rfl⟩
   | m :: ms, s, s', h, he => by
     simp only [foldIds] at he
     obtain ⟨id, hid, he⟩ := bind_ok he
     obtain ⟨s1, h1, he⟩ := bind_ok he
-    obtain ⟨i1, r1, a1⟩ := endRange_runs s s1 k p id h h1
-    obtain ⟨i2, r2, a2⟩ := foldIds_stop k p ms s1 s' i1 he
+    obtain ⟨i1, r1, a1⟩ := endRange_runs s s1 k0 tag p id h h1
+    obtain ⟨i2, r2, a2⟩ := foldIds_stop k0 tag p ms s1 s' i1 he
     exact ⟨i2, r2.trans r1, by simp only [foldMarkers, hid, ok_bind, ← a1]; exact a2⟩
+
 
 /-! ## the open and close steps -/
 
-theorem stepR_out {s s' : DC} {k : Nat} {p : Par} {g : RState → RState} (h : StepR s s' k p g) :
-    ∃ p', In s' k p' ∧ s'.root = s.root ∧ absS s' p' = { absS s p with r := g (absS s p).r } := by
+theorem stepR_out {s s' : DC} {k0 : Nat} {tag : Bool} {p : Par} {g : RState → RState} (h : StepR s s' k0 tag p g) :
+    ∃ p', In s' k0 tag p' ∧ s'.root = s.root ∧ absS s' p' = { absS s p with r := g (absS s p).r } := by
   obtain ⟨p', hi, hr, hg, ha⟩ := h
   exact ⟨p', hi, hr, by simp only [absS, hg, ha]⟩
 
-theorem openStep_runs (cfg : PartCfg) (hc : cfg.html = false) (s s' : DC) (k : Nat) (p : Par) (x : Xml) (c : Bool)
-    (roots : List (List Nest)) (r : Bool) (hx : isBlockish x = false) (h : In s k p)
+theorem openStep_runs (cfg : PartCfg) (s s' : DC) (k0 : Nat) (tag : Bool) (p : Par) (x : Xml) (c : Bool)
+    (roots : List (List Nest)) (r : Bool) (hx : isBlockish x = false) (h : In s k0 tag p)
     (he : openStep cfg s x c roots = .ok (s', r)) :
-    ∃ p', In s' k p' ∧ s'.root = s.root ∧ openRuns cfg k x (rootsText roots) (absS s p) = .ok (absS s' p', r) := by
+    ∃ p', In s' k0 tag p' ∧ s'.root = s.root ∧
+      openRuns cfg (k0 + tagOff tag) x (rootsText roots) (absS s p) = .ok (absS s' p', r) := by
   unfold openStep at he
   unfold isBlockish at hx
   unfold openRuns
-  rw [hc] at he
   split at he
   · rename_i hm; rw [hm] at hx; simp at hx
   · rename_i hm
     obtain ⟨h1, rfl⟩ := withTrue_ok he
-    obtain ⟨p', hi, hr, ha⟩ := stepR_out (commenceRun_runs s s' k p _ h h1)
-    exact ⟨p', hi, hr, by simp only [hm, ha]; rfl⟩
+    obtain ⟨st, hst, hstep⟩ := commenceRun_runs cfg.html s s' k0 tag p _ h h1
+    obtain ⟨p', hi, hr, ha⟩ := stepR_out hstep
+    simp only at hst
+    exact ⟨p', hi, hr, by simp only [hm, hst, ok_bind, ha]; rfl⟩
   · rename_i hm
     obtain ⟨h1, rfl⟩ := withFalse_ok he
     obtain ⟨id, hid, h1⟩ := bind_ok h1
-    obtain ⟨hi, hr, ha⟩ := endRange_runs s s' k p id h h1
+    obtain ⟨hi, hr, ha⟩ := endRange_runs s s' k0 tag p id h h1
     exact ⟨p, hi, hr, by simp only [hm, hid, ok_bind, ha]; rfl⟩
   · rename_i hm
     obtain ⟨h1, rfl⟩ := withFalse_ok he
     obtain ⟨id, hid, h1⟩ := bind_ok h1
-    obtain ⟨hi, hr, ha⟩ := startRange_runs s s' k p id h h1
+    obtain ⟨hi, hr, ha⟩ := startRange_runs s s' k0 tag p id h h1
     exact ⟨p, hi, hr, by simp only [hm, hid, ok_bind, ha]; rfl⟩
   · rename_i hm
     obtain ⟨h1, rfl⟩ := withTrue_ok he
-    obtain ⟨p', hi, hr, ha⟩ := stepR_out (addCode_runs s s' k p _ h (by simpa [DC.addText] using h1))
+    obtain ⟨p', hi, hr, ha⟩ := stepR_out (addCode_runs cfg.html s s' k0 tag p _ h (by simpa [DC.addText] using h1))
     exact ⟨p', hi, hr, by simp only [hm, ha]; rfl⟩
   · rename_i hm
     obtain ⟨h1, rfl⟩ := withTrue_ok he
-    obtain ⟨p', hi, hr, ha⟩ := stepR_out (addCode_runs s s' k p _ h (by simpa [DC.addText] using h1))
+    obtain ⟨p', hi, hr, ha⟩ := stepR_out (addCode_runs cfg.html s s' k0 tag p _ h (by simpa [DC.addText] using h1))
     exact ⟨p', hi, hr, by simp only [hm, ha]; rfl⟩
   · rename_i hm
     obtain ⟨h1, rfl⟩ := withFalse_ok he
-    obtain ⟨p', hi, hr, ha⟩ := stepR_out (insertNewRun_runs s s' k p _ h h1)
+    obtain ⟨p', hi, hr, ha⟩ := stepR_out (insertNewRun_runs cfg.html s s' k0 tag p _ h h1)
     exact ⟨p', hi, hr, by simp only [hm, ha]; rfl⟩
   · rename_i hm
     obtain ⟨h1, rfl⟩ := withTrue_ok he
-    obtain ⟨p', hi, hr, ha⟩ := stepR_out (addCode_runs s s' k p _ h h1)
+    obtain ⟨p', hi, hr, ha⟩ := stepR_out (addCode_runs cfg.html s s' k0 tag p _ h h1)
     exact ⟨p', hi, hr, by simp only [hm, ha]; rfl⟩
   · rename_i hm
     obtain ⟨h1, rfl⟩ := withTrue_ok he
@@ -263,7 +313,7 @@ theorem openStep_runs (cfg : PartCfg) (hc : cfg.html = false) (s s' : DC) (k : N
       exact ⟨p, h, rfl, by simp only [hm, hcd, ok_bind]; rfl⟩
     | some cd =>
       simp only at h1
-      obtain ⟨p', hi, hr, ha⟩ := stepR_out (addCode_runs s s' k p _ h h1)
+      obtain ⟨p', hi, hr, ha⟩ := stepR_out (addCode_runs cfg.html s s' k0 tag p _ h h1)
       exact ⟨p', hi, hr, by simp only [hm, hcd, ok_bind, ha]; rfl⟩
   · rename_i hm; rw [hm] at hx; simp at hx
   · rename_i hm; rw [hm] at hx; simp at hx
@@ -276,66 +326,67 @@ theorem openStep_runs (cfg : PartCfg) (hc : cfg.html = false) (s s' : DC) (k : N
     obtain ⟨rn, hrn, h1⟩ := bind_ok h1
     obtain ⟨s2, hs2, h1⟩ := bind_ok h1
     obtain ⟨qe, hqe, h1⟩ := bind_ok h1
-    obtain ⟨i1, r1, a1⟩ := foldIds_start k p _ s s1 h hs1
-    rw [hc] at hs2
-    obtain ⟨p2, i2, r2, a2⟩ := stepR_out (insertNewRun_runs s1 s2 k p rn i1 hs2)
-    obtain ⟨i3, r3, a3⟩ := foldIds_stop k p2 _ s2 s' i2 h1
+    obtain ⟨i1, r1, a1⟩ := foldIds_start k0 tag p _ s s1 h hs1
+    obtain ⟨p2, i2, r2, a2⟩ := stepR_out (insertNewRun_runs cfg.html s1 s2 k0 tag p rn i1 hs2)
+    obtain ⟨i3, r3, a3⟩ := foldIds_stop k0 tag p2 _ s2 s' i2 h1
     refine ⟨p2, i3, (r3.trans r2).trans r1, ?_⟩
     simp only [hm, htx, ok_bind, hqs, a1, hrn, hqe]
     rw [← a2, a3]; rfl
   · rename_i hm
     obtain ⟨h1, rfl⟩ := withTrue_ok he
     obtain ⟨t, ht, h1⟩ := bind_ok h1
-    obtain ⟨p', hi, hr, ha⟩ := stepR_out (insertNewRun_runs s s' k p _ h h1)
+    obtain ⟨p', hi, hr, ha⟩ := stepR_out (insertNewRun_runs cfg.html s s' k0 tag p _ h h1)
     exact ⟨p', hi, hr, by simp only [hm, ht, ok_bind, ha]; rfl⟩
   · rename_i hm
     obtain ⟨h1, rfl⟩ := withTrue_ok he
     obtain ⟨t, ht, h1⟩ := bind_ok h1
-    obtain ⟨p', hi, hr, ha⟩ := stepR_out (insertNewRun_runs s s' k p _ h h1)
+    obtain ⟨p', hi, hr, ha⟩ := stepR_out (insertNewRun_runs cfg.html s s' k0 tag p _ h h1)
     exact ⟨p', hi, hr, by simp only [hm, ht, ok_bind, ha]; rfl⟩
   · rename_i hm
     obtain ⟨h1, rfl⟩ := withTrue_ok he
     obtain ⟨t, ht, h1⟩ := bind_ok h1
-    obtain ⟨p', hi, hr, ha⟩ := stepR_out (insertNewRun_runs s s' k p _ h h1)
+    obtain ⟨p', hi, hr, ha⟩ := stepR_out (insertNewRun_runs cfg.html s s' k0 tag p _ h h1)
     exact ⟨p', hi, hr, by simp only [hm, ht, ok_bind, ha]; rfl⟩
   · rename_i hm
     obtain ⟨h1, rfl⟩ := withTrue_ok he
     obtain ⟨t, ht, h1⟩ := bind_ok h1
-    obtain ⟨p', hi, hr, ha⟩ := stepR_out (insertNewRun_runs s s' k p _ h h1)
+    obtain ⟨p', hi, hr, ha⟩ := stepR_out (insertNewRun_runs cfg.html s s' k0 tag p _ h h1)
     exact ⟨p', hi, hr, by simp only [hm, ht, ok_bind, ha]; rfl⟩
   · rename_i hm
     obtain ⟨h1, rfl⟩ := withTrue_ok he
     obtain ⟨t, ht, h1⟩ := bind_ok h1
-    obtain ⟨p', hi, hr, ha⟩ := stepR_out (insertOpt_runs s s' k p _ h h1)
+    obtain ⟨p', hi, hr, ha⟩ := stepR_out (insertOpt_runs cfg.html s s' k0 tag p _ h h1)
     exact ⟨p', hi, hr, by simp only [hm, ht, ok_bind, ha]; rfl⟩
   · rename_i hm
     obtain ⟨h1, rfl⟩ := withTrue_ok he
     obtain ⟨t, ht, h1⟩ := bind_ok h1
-    obtain ⟨p', hi, hr, ha⟩ := stepR_out (insertOpt_runs s s' k p _ h h1)
+    obtain ⟨p', hi, hr, ha⟩ := stepR_out (insertOpt_runs cfg.html s s' k0 tag p _ h h1)
     exact ⟨p', hi, hr, by simp only [hm, ht, ok_bind, ha]; rfl⟩
   · rename_i hm
     obtain ⟨h1, rfl⟩ := withTrue_ok he
-    obtain ⟨p', hi, hr, ha⟩ := stepR_out (insertOpt_runs s s' k p _ h h1)
+    obtain ⟨p', hi, hr, ha⟩ := stepR_out (insertOpt_runs cfg.html s s' k0 tag p _ h h1)
     exact ⟨p', hi, hr, by simp only [hm, ha]; rfl⟩
   · rename_i hm
     obtain ⟨h1, rfl⟩ := withTrue_ok he
-    obtain ⟨p', hi, hr, ha⟩ := stepR_out (insertNewRun_runs s s' k p _ h h1)
+    obtain ⟨p', hi, hr, ha⟩ := stepR_out (insertNewRun_runs cfg.html s s' k0 tag p _ h h1)
     exact ⟨p', hi, hr, by simp only [hm, ha]; rfl⟩
   · have := pure_ok he; cases this
     refine ⟨p, h, rfl, ?_⟩
     split <;> first | rfl | (exfalso; simp_all)
 
-theorem closeStep_runs (cfg : PartCfg) (hc : cfg.html = false) (s s' : DC) (k : Nat) (p : Par) (x : Xml)
-    (hx : isBlockish x = false) (h : In s k p) (he : closeStep cfg s x = .ok s') :
-    ∃ p', In s' k p' ∧ s'.root = s.root ∧ absS s' p' = closeRuns x (absS s p) := by
+theorem closeStep_runs (cfg : PartCfg) (s s' : DC) (k0 : Nat) (tag : Bool) (p : Par) (x : Xml)
+    (hx : isBlockish x = false) (h : In s k0 tag p) (he : closeStep cfg s x = .ok s') :
+    ∃ p', In s' k0 tag p' ∧ s'.root = s.root ∧ absS s' p' = closeRuns x (absS s p) := by
   unfold closeStep at he
   unfold isBlockish at hx
   unfold closeRuns
-  rw [hc] at he
   split at he
   · rename_i hm; rw [hm] at hx; simp at hx
   · rename_i hm
-    obtain ⟨p', hi, hr, ha⟩ := stepR_out (commenceRun_runs s s' k p none h he)
+    obtain ⟨st, hst, hstep⟩ := commenceRun_runs cfg.html s s' k0 tag p none h he
+    obtain ⟨p', hi, hr, ha⟩ := stepR_out hstep
+    have hst0 : st = [] := (pure_ok hst).symm
+    subst hst0
     exact ⟨p', hi, hr, by simp only [hm, ha]⟩
   · rename_i hm; rw [hm] at hx; simp at hx
   · have := pure_ok he; subst this
@@ -404,9 +455,10 @@ theorem openRuns_link (cfg : PartCfg) (k : Nat) (x : Xml) (l1 l2 : M Str) (st : 
 mutual
 /-- **inline content refines the run-string machine** (html off): inside one open paragraph, walking
 `x` changes nothing but that paragraph's runs and the ranges, and both as `runsOf` says -/
-theorem walk_runs (cfg : PartCfg) (hc : cfg.html = false) (num : Dict Str (List NumAttr)) (k : Nat) (c : Bool) :
-    (x : Xml) → (s s' : DC) → (p : Par) → simple x = true → In s k p → walk cfg num c s x = .ok s' →
-      ∃ p', In s' k p' ∧ s'.root = s.root ∧ runsOf cfg k (linksOf cfg num c) x (absS s p) = .ok (absS s' p')
+theorem walk_runs (cfg : PartCfg) (num : Dict Str (List NumAttr)) (k0 : Nat) (tag : Bool) (c : Bool) :
+    (x : Xml) → (s s' : DC) → (p : Par) → simple x = true → In s k0 tag p → walk cfg num c s x = .ok s' →
+      ∃ p', In s' k0 tag p' ∧ s'.root = s.root ∧
+        runsOf cfg (k0 + tagOff tag) (linksOf cfg num c) x (absS s p) = .ok (absS s' p')
   | .elem i pf t m a tx tl ks, s, s', p, hs, hin, h => by
     have hd := elemDepth_simple _ hs
     simp only [simple, Bool.and_eq_true, Bool.not_eq_true'] at hs
@@ -417,9 +469,9 @@ theorem walk_runs (cfg : PartCfg) (hc : cfg.html = false) (num : Dict Str (List 
     obtain ⟨s3, h3, h⟩ := bind_ok h
     obtain ⟨s4, h4, h⟩ := bind_ok h
     have := pure_ok h; subst this
-    obtain ⟨p2, i2, r2, o2⟩ := openStep_runs cfg hc s s2 k p _ c roots rec hs.1 hin h2
+    obtain ⟨p2, i2, r2, o2⟩ := openStep_runs cfg s s2 k0 tag p _ c roots rec hs.1 hin h2
     -- the link text the spec uses is the one the walk computed
-    have o2' : openRuns cfg k (.elem i pf t m a tx tl ks) (linksOf cfg num c (.elem i pf t m a tx tl ks)) (absS s p) = .ok (absS s2 p2, rec) := by
+    have o2' : openRuns cfg (k0 + tagOff tag) (.elem i pf t m a tx tl ks) (linksOf cfg num c (.elem i pf t m a tx tl ks)) (absS s p) = .ok (absS s2 p2, rec) := by
       by_cases hl : ((Xml.elem i pf t m a tx tl ks).ptag == hyperlinkTag) = true
       · simp only [hl, if_true] at hroots
         have : linksOf cfg num c (.elem i pf t m a tx tl ks) = rootsText roots := by
@@ -427,35 +479,36 @@ theorem walk_runs (cfg : PartCfg) (hc : cfg.html = false) (num : Dict Str (List 
         rw [this]; exact o2
       · have hne : tagMember (Xml.elem i pf t m a tx tl ks).ptag ≠ some "HYPERLINK" := by
           intro hm; exact hl (by rw [hyperlink_of_member _ hm]; simp)
-        rw [openRuns_link cfg k _ _ (rootsText roots) _ hne]; exact o2
+        rw [openRuns_link cfg (k0 + tagOff tag) _ _ (rootsText roots) _ hne]; exact o2
     simp only [runsOf, o2', ok_bind]
     simp only at h3
     cases rec with
     | true =>
       simp only [if_true] at h3 ⊢
-      obtain ⟨p3, i3, r3, o3⟩ := walkL_runs cfg hc num k c ks s2 s3 p2 hs.2 i2 h3
-      obtain ⟨p4, i4, r4, o4⟩ := closeStep_runs cfg hc s3 s4 k p3 _ hs.1 i3 h4
+      obtain ⟨p3, i3, r3, o3⟩ := walkL_runs cfg num k0 tag c ks s2 s3 p2 hs.2 i2 h3
+      obtain ⟨p4, i4, r4, o4⟩ := closeStep_runs cfg s3 s4 k0 tag p3 _ hs.1 i3 h4
       exact ⟨p4, i4, (r4.trans r3).trans r2, by simp only [o3, ok_bind, o4]; rfl⟩
     | false =>
       simp only [Bool.false_eq_true, if_false] at h3 ⊢
       have := pure_ok h3; subst this
-      obtain ⟨p4, i4, r4, o4⟩ := closeStep_runs cfg hc s2 s4 k p2 _ hs.1 i2 h4
+      obtain ⟨p4, i4, r4, o4⟩ := closeStep_runs cfg s2 s4 k0 tag p2 _ hs.1 i2 h4
       exact ⟨p4, i4, r4.trans r2, by simp only [pure, Except.pure, ok_bind, o4]⟩
   | .comment _ _, s, s', p, _, hin, h => by
     simp only [walk] at h; have := pure_ok h; subst this; exact ⟨p, hin, rfl, rfl⟩
   | .pi _, s, s', p, _, hin, h => by
     simp only [walk] at h; have := pure_ok h; subst this; exact ⟨p, hin, rfl, rfl⟩
-theorem walkL_runs (cfg : PartCfg) (hc : cfg.html = false) (num : Dict Str (List NumAttr)) (k : Nat) (c : Bool) :
-    (xs : List Xml) → (s s' : DC) → (p : Par) → simpleL xs = true → In s k p → walkL cfg num c s xs = .ok s' →
-      ∃ p', In s' k p' ∧ s'.root = s.root ∧ runsOfL cfg k (linksOf cfg num c) xs (absS s p) = .ok (absS s' p')
+theorem walkL_runs (cfg : PartCfg) (num : Dict Str (List NumAttr)) (k0 : Nat) (tag : Bool) (c : Bool) :
+    (xs : List Xml) → (s s' : DC) → (p : Par) → simpleL xs = true → In s k0 tag p → walkL cfg num c s xs = .ok s' →
+      ∃ p', In s' k0 tag p' ∧ s'.root = s.root ∧
+        runsOfL cfg (k0 + tagOff tag) (linksOf cfg num c) xs (absS s p) = .ok (absS s' p')
   | [], s, s', p, _, hin, h => by
     simp only [walkL] at h; have := pure_ok h; subst this; exact ⟨p, hin, rfl, rfl⟩
   | x :: xs, s, s', p, hs, hin, h => by
     simp only [simpleL, Bool.and_eq_true] at hs
     simp only [walkL] at h
     obtain ⟨s1, h1, h⟩ := bind_ok h
-    obtain ⟨p1, i1, r1, o1⟩ := walk_runs cfg hc num k c x s s1 p hs.1 hin h1
-    obtain ⟨p2, i2, r2, o2⟩ := walkL_runs cfg hc num k c xs s1 s' p1 hs.2 i1 h
+    obtain ⟨p1, i1, r1, o1⟩ := walk_runs cfg num k0 tag c x s s1 p hs.1 hin h1
+    obtain ⟨p2, i2, r2, o2⟩ := walkL_runs cfg num k0 tag c xs s1 s' p1 hs.2 i1 h
     exact ⟨p2, i2, r2.trans r1, by simp only [runsOfL, o1, ok_bind, o2]⟩
 end
 
